@@ -53,7 +53,17 @@ def run(ctx, idx):
         # does any path from the handler entry reach the normal exit?
         if handler_node:
             falls = cfg.exit in cfg.reachable(handler_node[0])
-        if not (reraise and tests):
+        # alternative form: a dedicated `except MPilotError: raise` clause placed before the catch-all one
+        earlier = hs[: hs.index(h)]
+        dedicated = False
+        for h0 in earlier:
+            q0 = idx.qualname(fi.module, h0.type, fi) if h0.type is not None and not isinstance(h0.type, ast.Tuple) else ""
+            if q0.endswith("exceptions.MPilotError") and len(h0.body) == 1 and isinstance(h0.body[0], ast.Raise) and h0.body[0].exc is None:
+                dedicated = True
+        if dedicated and wraps and rf and not falls:
+            ok = True
+            why = "try covers validate_params and execute; `except MPilotError: raise` first, then except Exception -> UnexpectedError"
+        elif not (reraise and tests):
             why = "MPilotError is not re-raised unchanged (it would be wrapped as UnexpectedError and lose its type)"
         elif not wraps or not rf:
             why = "foreign exceptions are not converted to UnexpectedError"
@@ -315,8 +325,11 @@ def grammar_action_types(ctx, idx, rule, lexicon):
             return types[sym]
         return tok_types.get(sym, {"punct"})
 
-    def ev(e, prod, parg):
+    def ev(e, prod, parg, env=None):
         """set of possible types of expression e"""
+        env = env if env is not None else {}
+        if isinstance(e, ast.Name) and e.id in env:
+            return set(env[e.id])
         if isinstance(e, ast.Subscript) and isinstance(e.value, ast.Name) and e.value.id == parg and isinstance(e.slice, ast.Constant):
             i = e.slice.value
             if 1 <= i <= len(prod.rhs):
@@ -326,41 +339,43 @@ def grammar_action_types(ctx, idx, rule, lexicon):
             return {"str"} if isinstance(e.value, str) else {"num"} if isinstance(e.value, (int, float)) else {"none"}
         if isinstance(e, ast.List):
             for x in e.elts:
-                ev(x, prod, parg)
+                ev(x, prod, parg, env)
             return {"list"}
         if isinstance(e, ast.Tuple):
             for x in e.elts:
-                ev(x, prod, parg)
+                ev(x, prod, parg, env)
             return {"tuple"}
         if isinstance(e, ast.Dict):
             return {"dict"}
         if isinstance(e, ast.BinOp) and isinstance(e.op, ast.Add):
-            a, b = ev(e.left, prod, parg), ev(e.right, prod, parg)
+            a, b = ev(e.left, prod, parg, env), ev(e.right, prod, parg, env)
             out = set()
             for x in a:
                 for y in b:
                     if x == y and x in ("str", "list", "num", "tuple"):
                         out.add(x)
+                    elif "any" in (x, y):
+                        out.add("any")
                     else:
                         problems.setdefault((prod.func.name, K.src(e)), (e.lineno, "`%s` in `%s` adds a %s and a %s" % (K.src(e), prod, x, y)))
             return out
         if isinstance(e, ast.Call):
             f = K.src(e.func)
-            args = [ev(a, prod, parg) for a in e.args]
+            args = [ev(a, prod, parg, env) for a in e.args]
             if f == "str":
                 return {"str"}
             if f == "dict":
                 for a in args:
                     for t in a:
-                        if t not in ("list", "dict"):
+                        if t not in ("list", "dict", "any"):
                             problems.setdefault((prod.func.name, K.src(e)), (e.lineno, "`%s` builds a dict from a %s" % (K.src(e), t)))
                 return {"dict"}
             if f == "list":
                 return {"list"}
             if f.endswith(".items"):
-                base = ev(e.func.value, prod, parg)
+                base = ev(e.func.value, prod, parg, env)
                 for t in base:
-                    if t != "dict":
+                    if t not in ("dict", "any"):
                         problems.setdefault((prod.func.name, K.src(e)), (e.lineno, "`%s` in `%s` calls .items() on a %s" % (K.src(e), prod, t)))
                 return {"list"}
             if f.endswith(".lineno") or f.endswith("linespan"):
@@ -369,7 +384,7 @@ def grammar_action_types(ctx, idx, rule, lexicon):
                 return {"node"}
             return {"any"}
         if isinstance(e, ast.IfExp):
-            return ev(e.body, prod, parg) | ev(e.orelse, prod, parg)
+            return ev(e.body, prod, parg, env) | ev(e.orelse, prod, parg, env)
         return {"any"}
 
     for _ in range(8):
@@ -379,14 +394,24 @@ def grammar_action_types(ctx, idx, rule, lexicon):
             f = prod.func
             parg = f.args.args[-1].arg
             v = None
-            for n in ast.walk(f):
-                if isinstance(n, ast.Assign):
-                    for t in n.targets:
-                        if isinstance(t, ast.Subscript) and isinstance(t.value, ast.Name) and t.value.id == parg and isinstance(t.slice, ast.Constant) and t.slice.value == 0:
-                            v = n.value
+            env = {}
+            # straight-line local environment (assignments in source order; later bindings join earlier ones)
+            assigns = sorted([n for n in ast.walk(f) if isinstance(n, ast.Assign)], key=lambda n: (n.lineno, n.col_offset))
+            for n in assigns:
+                for t in n.targets:
+                    if isinstance(t, ast.Subscript) and isinstance(t.value, ast.Name) and t.value.id == parg and isinstance(t.slice, ast.Constant) and t.slice.value == 0:
+                        v = n.value
+                    elif isinstance(t, ast.Name):
+                        env[t.id] = env.get(t.id, set()) | ev(n.value, prod, parg, env)
+                    elif isinstance(t, ast.Tuple):
+                        for x in t.elts:
+                            if isinstance(x, ast.Name):
+                                env[x.id] = {"any"}
+                    elif isinstance(t, ast.Subscript) and isinstance(t.value, ast.Name):
+                        ev(n.value, prod, parg, env)
             if v is None:
                 continue
-            ts = ev(v, prod, parg)
+            ts = ev(v, prod, parg, env)
             if not ts <= types[prod.lhs]:
                 types[prod.lhs] |= ts
                 changed = True
